@@ -12,6 +12,7 @@ export CARGO_NET_OFFLINE=true CARGO_TARGET_DIR=/tmp/seedwork/confirm-target-$id
 exec >"$log" 2>&1
 set -x
 crate=$(python3 -c "import json;print(json.load(open('$src/meta.json'))['crate'])" | awk '{print $1}' | tr -d ',')
+if [ -n "$3" ]; then crate="$3"; fi
 git -C /repo worktree remove --force "$wt" 2>/dev/null
 git -C /repo worktree add -q --detach "$wt" HEAD || exit 2
 cd "$wt"
